@@ -46,3 +46,7 @@ pub fn rel_parse(fs: &[&str]) -> String {
     });
     format!("lex={}|r0={}|r1={}|strict={}|entry={}|relation={}", lx, r0, r1, strict, ent, rel)
 }
+
+pub fn streams() -> Vec<(&'static str, crate::StreamFn)> {
+    vec![("rel-parse", rel_parse as crate::StreamFn)]
+}
